@@ -1,34 +1,47 @@
 /* Contract of  Math::real Geodesic::GenDirect(real lat1, real lon1, real azi1, bool arcmode, real s12_a12, unsigned outmask,
  *      real& lat2, real& lon2, real& azi2, real& s12, real& m12, real& M12, real& M21, real& S12) const      (src/Geodesic.cpp)
- * Source: C12 "quantities that were not requested ... are left untouched" and Geodesic.hpp ("DISTANCE_IN is supplied automatically");
+ * Source: C12 "quantities that were not requested ... are left untouched" and Geodesic.hpp ("Geodesic_DISTANCE_IN is supplied automatically");
  * C01 ranges of the returned latitude / longitude / azimuth; C14 (const: the solver object is not written).
  * The temporary line is built by the (verified) line constructor and interrogated by the (verified) GenPosition, both by contract.
  * REWRITE (rule R16, stated in the evidence): `return GeodesicLine(*this, ...).GenPosition(...)` becomes a named local line object,
  * a constructor call and a GenPosition call -- same calls, same arguments, same order. */
+/*@ ghost */
+/* for callers (PolygonArea::AddEdge / TestEdge): what was asked and what came back */
+unsigned g_GD_calls, g_GD_mask; _Bool g_GD_arcmode; double g_GD_lat1, g_GD_lon1, g_GD_azi1, g_GD_s12_a12, g_GD_lat2, g_GD_lon2, g_GD_S12;
+/*@ ghost-init */
+g_GD_calls = 0;
 /*@ ghost */
 #define GD_ON(bit) ((outmask & 0xFF80U & (bit)) != 0U)
 /*@ clause pre.solver src=class-invariant */
 /* established by Geodesic's constructor (Geodesic_Geodesic.c: post.invariant) */
 __CPROVER_requires(self->_exact || (self->_f1 > 0.0 && !isinf(self->_f1) && self->tiny_ > 0.0))
 /*@ clause frame src=property props=C12,C14 */
-__CPROVER_assigns(GD_ON(LATITUDE): *lat2; GD_ON(LONGITUDE): *lon2; GD_ON(AZIMUTH): *azi2; GD_ON(DISTANCE): *s12;
-                  GD_ON(REDUCEDLENGTH): *m12; GD_ON(GEODESICSCALE): *M12; GD_ON(GEODESICSCALE): *M21; GD_ON(AREA): *S12;
-                  g_GP_calls, g_GP_outmask, g_GP_caps, g_GP_arcmode, g_GP_can, g_GP_s12_a12)
-/*@ clause post.always_can src=header props=C12,C01 */
-/* a position by distance never fails for want of the DISTANCE_IN capability: it is supplied automatically */
+__CPROVER_assigns(GD_ON(Geodesic_LATITUDE): *lat2; GD_ON(Geodesic_LONGITUDE): *lon2; GD_ON(Geodesic_AZIMUTH): *azi2; GD_ON(Geodesic_DISTANCE): *s12;
+                  GD_ON(Geodesic_REDUCEDLENGTH): *m12; GD_ON(Geodesic_GEODESICSCALE): *M12; GD_ON(Geodesic_GEODESICSCALE): *M21; GD_ON(Geodesic_AREA): *S12)
+/*@ clause frame.line_ghost src=ghost only=enforce */
+/* the bookkeeping of the line contract used inside (not part of what a caller of GenDirect sees) */
+__CPROVER_assigns(g_GP_calls, g_GP_outmask, g_GP_caps, g_GP_arcmode, g_GP_can, g_GP_s12_a12)
+/*@ clause post.always_can src=header props=C12,C01 only=enforce */
+/* a position by distance never fails for want of the Geodesic_DISTANCE_IN capability: it is supplied automatically */
 __CPROVER_ensures(self->_exact || (g_GP_calls == 1 && g_GP_can))
-/*@ clause post.same_request src=header props=C12,C01 */
+/*@ clause post.same_request src=header props=C12,C01 only=enforce */
 /* the line is asked exactly what the caller asked: same mode, same distance / arc, same output bits, and it has every capability asked for */
 __CPROVER_ensures(self->_exact || (g_GP_arcmode == arcmode && VERIF_SAME_D(g_GP_s12_a12, s12_a12) &&
-                  (g_GP_outmask & 0xFF80U & ~DISTANCE_IN) == (outmask & 0xFF80U & ~DISTANCE_IN) &&
+                  (g_GP_outmask & 0xFF80U & ~Geodesic_DISTANCE_IN) == (outmask & 0xFF80U & ~Geodesic_DISTANCE_IN) &&
                   (g_GP_caps & outmask) == outmask))
 /*@ clause post.arc_returned src=header props=C12 */
 __CPROVER_ensures(self->_exact || !arcmode || VERIF_SAME_D(__CPROVER_return_value, s12_a12))
 /*@ clause post.distance_passthrough src=header props=C12 */
-__CPROVER_ensures(self->_exact || !GD_ON(DISTANCE) || arcmode || VERIF_SAME_D(*s12, s12_a12))
+__CPROVER_ensures(self->_exact || !GD_ON(Geodesic_DISTANCE) || arcmode || VERIF_SAME_D(*s12, s12_a12))
 /*@ clause post.azimuth_range src=property props=C01 */
-__CPROVER_ensures(self->_exact || !GD_ON(AZIMUTH) || isnan(*azi2) || (-180.0 <= *azi2 && *azi2 <= 180.0))
+__CPROVER_ensures(self->_exact || !GD_ON(Geodesic_AZIMUTH) || isnan(*azi2) || (-180.0 <= *azi2 && *azi2 <= 180.0))
 /*@ clause post.latitude_range src=property props=C01 */
-__CPROVER_ensures(self->_exact || !GD_ON(LATITUDE) || isnan(*lat2) || (-90.0 <= *lat2 && *lat2 <= 90.0))
+__CPROVER_ensures(self->_exact || !GD_ON(Geodesic_LATITUDE) || isnan(*lat2) || (-90.0 <= *lat2 && *lat2 <= 90.0))
 /*@ clause post.longitude_range src=property props=C01 */
-__CPROVER_ensures(self->_exact || !GD_ON(LONGITUDE) || (outmask & LONG_UNROLL) != 0U || isnan(*lon2) || (-180.0 <= *lon2 && *lon2 <= 180.0))
+__CPROVER_ensures(self->_exact || !GD_ON(Geodesic_LONGITUDE) || (outmask & Geodesic_LONG_UNROLL) != 0U || isnan(*lon2) || (-180.0 <= *lon2 && *lon2 <= 180.0))
+/*@ clause frame.ghost src=ghost only=replace */
+__CPROVER_assigns(g_GD_calls, g_GD_mask, g_GD_arcmode, g_GD_lat1, g_GD_lon1, g_GD_azi1, g_GD_s12_a12, g_GD_lat2, g_GD_lon2, g_GD_S12)
+/*@ clause post.ghost src=ghost only=replace */
+__CPROVER_ensures(g_GD_calls == __CPROVER_old(g_GD_calls) + 1 && g_GD_mask == outmask && g_GD_arcmode == arcmode && VERIF_SAME_D(g_GD_lat1, lat1) &&
+                  VERIF_SAME_D(g_GD_lon1, lon1) && VERIF_SAME_D(g_GD_azi1, azi1) && VERIF_SAME_D(g_GD_s12_a12, s12_a12) &&
+                  VERIF_SAME_D(g_GD_lat2, *lat2) && VERIF_SAME_D(g_GD_lon2, *lon2) && VERIF_SAME_D(g_GD_S12, *S12))
